@@ -14,7 +14,7 @@ CONFIGS = {
 
 
 def owned(site):
-    return {'accepted', 'denotes', 'macros', 'registers', 'lets'} if site == 'parse' else {'meaning_mod_sub', 'accepted'}
+    return {'accepted', 'denotes', 'macros', 'registers', 'lets'} if site == 'parse' else {'meaning_mod_sub', 'accepted', 'macros_kept'}
 
 
 def nontrivial(prog):
@@ -42,7 +42,7 @@ def main(tier):
     # every program is also rendered with the macro definitions after the main body when the body calls none
     orig = passes.run_program
     return passes.run_property(
-        PROP, tier, CONFIGS, lambda p, rng: [('expand_macros', [])], owned, nontrivial,
+        PROP, tier, CONFIGS, lambda p, rng: [('expand_macros', []), ('fill_in_let', [])], owned, nontrivial,
         'complete programs of the AstEnum machine over a colliding name pool (let a / register q / alias r vs macro '
         'parameters a, q, r), textually identical gate statements in several scopes; each program rendered with the '
         'macros before the body and, when the body calls no macro, also after it; non-trivial = distinct programs in '
